@@ -30,8 +30,18 @@ namespace details {
         // queue is empty, if both point to the very same element
         // if read_ptr_ != write_ptr_, the ring is not empty and data_[ read_ptr_ ]
         // contains the next element to read from.
+#ifdef BLUETOE_VERIF_HOOKS
+        // verification hook (/verif DESIGN.md 2.4): a harness may replace the index type by an instrumented
+        // atomic-like type (constructible from int, load(), store(int)) that yields to a deterministic scheduler
+#       ifndef BLUETOE_VERIF_RING_INDEX
+#           define BLUETOE_VERIF_RING_INDEX std::atomic_int
+#       endif
+        BLUETOE_VERIF_RING_INDEX read_ptr_;
+        BLUETOE_VERIF_RING_INDEX write_ptr_;
+#else
         std::atomic_int read_ptr_;
         std::atomic_int write_ptr_;
+#endif
 
         static constexpr std::size_t length = S + 1;
 
